@@ -85,6 +85,7 @@ func (p *C11) Gen(seed uint64, i int, tier string) *scen.Scenario {
 			sc.Note = "libfile"
 		}
 		nextID := 3
+		var named [][2]int // (parent, id) of the children made under a name of their own
 		bools := func() []bool {
 			switch r.Intn(5) {
 			case 0:
@@ -128,12 +129,36 @@ func (p *C11) Gen(seed uint64, i int, tier string) *scen.Scenario {
 					// New(name, "k", v, Attr..., options...): options are allowed anywhere after the name
 					op.Args = []scen.Arg{{K: "key", S: "ka"}, {K: "i", I: 1}, {K: "attr", Key: "kb", Items: []scen.Arg{{K: "i", I: 2}}}}
 					op.Kind = scen.Pick(r, []string{"args_first", "interleaved"})
+				} else if r.Chance(1, 3) {
+					// parent.New(options...): no name at all, an option is the first argument; the options in any order
+					op.Name, op.Named = "", false
+					for q := len(op.Opts) - 1; q > 0; q-- {
+						j := r.Intn(q + 1)
+						op.Opts[q], op.Opts[j] = op.Opts[j], op.Opts[q]
+					}
 				}
 				sc.Setup = append(sc.Setup, op)
+				if op.Named {
+					named = append(named, [2]int{l, nextID})
+				}
 				loggers = append(loggers, nextID)
 				nextID++
 			default:
 				sc.Setup = append(sc.Setup, scen.Op{Op: "set", L: l, Kind: kind, B: bools()})
+			}
+			if len(named) > 0 && r.Chance(1, 5) {
+				// a child is looked up again under its name, with something that is no mode call (a level option,
+				// attributes): whether such extras are applied to the existing child is not C11's business, its
+				// format is - and that was decided by its own most recent mode call
+				c := scen.Pick(r, named)
+				op := scen.Op{Op: "new_child", L: c[0], R: 90 + k, Name: fmt.Sprintf("n%d", c[1]), Named: true}
+				switch r.Intn(3) {
+				case 0:
+					op.Opts = []scen.Op{{Kind: "level", Lvl: 8}}
+				case 1:
+					op.Args = []scen.Arg{{K: "key", S: "kz"}, {K: "i", I: 3}}
+				}
+				sc.Setup = append(sc.Setup, op)
 			}
 		}
 	}
@@ -306,8 +331,19 @@ func (p *C11) Check(sc *scen.Scenario, run *orch.Run, env *orch.Env) []orch.Viol
 				ID  int  `json:"id"`
 				New bool `json:"new"`
 			}
-			if !retInto(o, &ret) || !ret.New {
+			if !retInto(o, &ret) {
 				continue
+			}
+			if !ret.New {
+				// New(name, ...) found an existing child. Whether mode options that come with the name are applied
+				// to it is not said (then its state is not known any more); anything else leaves its format alone
+				// (the model keeps it as it was, the getter comparison below reports a change)
+				for _, o2 := range op.Opts {
+					if o2.Kind == "json" || o2.Kind == "color" {
+						delete(state, ret.ID)
+					}
+				}
+				break
 			}
 			st := ps
 			for _, o2 := range op.Opts {
